@@ -503,9 +503,15 @@ func (e *Endpoint) AckSettings() error {
 		}
 	}
 	e.heldSettings = nil
+	table, hasTable := e.peerSettings[uint16(http2.SettingHeaderTableSize)]
 	e.mu.Unlock()
 	e.wmu.Lock()
 	defer e.wmu.Unlock()
+	if hasTable {
+		// the peer's decoder accepts a dynamic table of up to this size from now on
+		// (a smaller value than the encoder uses is signalled in its next block)
+		e.enc.SetMaxDynamicTableSizeLimit(table)
+	}
 	for i := 0; i < n; i++ {
 		if err := e.fr.WriteSettingsAck(); err != nil {
 			return err
